@@ -6,6 +6,7 @@ CONSTANTS Callers = {c1, c2, c3}
  FreshKey = FALSE
  MaxJunk = 0
  MaxClose = 0
+ MaxBad = 0
  Kinds = {"obj"}
  Dev = {"GenIdOutsideLock"}
 CHECK_DEADLOCK FALSE
